@@ -52,6 +52,7 @@ func main() {
 	repo := flag.String("repo", "/repo", "repository root")
 	verif := flag.String("verif", "/verif", "verif root")
 	out := flag.String("out", "", "output dir")
+	extra := flag.String("extra-os", "", "comma-separated absolute source files (of dependency modules) whose \"os\" import is redirected to the vos shim as well: file-system calls made by the storage layer of goleveldb become crash points")
 	target := flag.String("target", "", "directory the build sees (overlay keys); default = -repo. When it differs from -repo every source file of the instrumented packages is overlaid, so the build sees exactly the -repo tree")
 	flag.Parse()
 	if *target == "" {
@@ -129,6 +130,99 @@ func main() {
 				notes = append(notes, "injected "+p.rel+"/"+h)
 			}
 		}
+	}
+	if *extra != "" {
+		// Files of a dependency module cannot import packages of this module; the seam is a hook variable
+		// and wrapper functions ADDED to the dependency's own package (vhook_verif.go), and the calls
+		// os.OpenFile / os.Rename / os.Remove / os.MkdirAll in the listed files are redirected to the wrappers.
+		odir := filepath.Join(*out, "extra")
+		if err := os.MkdirAll(odir, 0o777); err != nil {
+			fatal("%v", err)
+		}
+		var pkgDir, pkgName string
+		for i, src := range strings.Split(*extra, ",") {
+			b, err := os.ReadFile(src)
+			if err != nil {
+				fatal("%v", err)
+			}
+			fset := token.NewFileSet()
+			f, err := parser.ParseFile(fset, src, b, parser.PackageClauseOnly)
+			if err != nil {
+				fatal("%v", err)
+			}
+			pkgDir, pkgName = filepath.Dir(src), f.Name.Name
+			txt := string(b)
+			for _, fn := range []string{"OpenFile", "Rename", "Remove", "MkdirAll"} {
+				txt = strings.ReplaceAll(txt, "os."+fn+"(", "verifOS"+fn+"(")
+			}
+			dst := filepath.Join(odir, fmt.Sprintf("%d_%s", i, filepath.Base(src)))
+			if err := os.WriteFile(dst, []byte(txt), 0o666); err != nil {
+				fatal("%v", err)
+			}
+			overlay[src] = dst
+		}
+		_ = pkgName
+		hook := `
+
+// VerifHook is called before ("pre") and after ("post") each name-space changing file-system call of this package
+// (added by verif/cmd/vinstr through the build overlay; not part of the module).
+var VerifHook func(phase, op, path string)
+
+func verifOSPre(op, p string) {
+	if h := VerifHook; h != nil {
+		h("pre", op, p)
+	}
+}
+
+func verifOSPost(op, p string) {
+	if h := VerifHook; h != nil {
+		h("post", op, p)
+	}
+}
+
+func verifOSOpenFile(name string, flag int, perm os.FileMode) (*os.File, error) {
+	op := "OpenFile"
+	if flag&os.O_CREATE != 0 {
+		op = "OpenFile+create"
+	}
+	verifOSPre(op, name)
+	f, err := os.OpenFile(name, flag, perm)
+	verifOSPost(op, name)
+	return f, err
+}
+
+func verifOSRename(a, b string) error {
+	verifOSPre("Rename", b)
+	err := os.Rename(a, b)
+	verifOSPost("Rename", b)
+	return err
+}
+
+func verifOSRemove(p string) error {
+	verifOSPre("Remove", p)
+	err := os.Remove(p)
+	verifOSPost("Remove", p)
+	return err
+}
+
+func verifOSMkdirAll(p string, perm os.FileMode) error {
+	verifOSPre("MkdirAll", p)
+	err := os.MkdirAll(p, perm)
+	verifOSPost("MkdirAll", p)
+	return err
+}
+`
+		// (a file ADDED to a package of the module cache is not picked up by the overlay: the definitions are
+		// appended to the first replaced file, which imports "os" already)
+		first := filepath.Join(odir, "0_"+filepath.Base(strings.Split(*extra, ",")[0]))
+		b, err := os.ReadFile(first)
+		if err != nil {
+			fatal("%v", err)
+		}
+		if err := os.WriteFile(first, append(b, []byte(hook)...), 0o666); err != nil {
+			fatal("%v", err)
+		}
+		_ = pkgDir
 	}
 	js, _ := json.MarshalIndent(map[string]interface{}{"Replace": overlay}, "", " ")
 	if err := os.WriteFile(filepath.Join(*out, "overlay.json"), js, 0o666); err != nil {
